@@ -27,12 +27,14 @@ from concurrent.futures import ThreadPoolExecutor
 
 import vlib
 from gen import groups as G
+from props import C09_growth as GR
 
 ID = "C09"
 PROPS = ["IsoVerif/Props/C09.lean", "IsoVerif/Props/C09Groupers.lean", "IsoVerif/Props/C09Tables.lean",
-         "IsoVerif/Props/C09Profiles.lean"]
-TARGETS = ["IsoVerif.Props.C09", "IsoVerif.Props.C09Groupers", "IsoVerif.Props.C09Tables", "IsoVerif.Props.C09Profiles"]
-GEN_DEPS = ["Enums", "EventClasses", "Strategies", "ReadGroups"]
+         "IsoVerif/Props/C09Profiles.lean", "IsoVerif/Props/C09Labels.lean", "IsoVerif/Props/C09Tpm.lean", "IsoVerif/Props/C09TablesChrom.lean"]
+TARGETS = ["IsoVerif.Props.C09", "IsoVerif.Props.C09Groupers", "IsoVerif.Props.C09Tables", "IsoVerif.Props.C09Profiles",
+           "IsoVerif.Props.C09Labels", "IsoVerif.Props.C09Tpm", "IsoVerif.Props.C09TablesChrom"]
+GEN_DEPS = ["Enums", "EventClasses", "Strategies", "ReadGroups", "CounterTables"]
 LEVEL = "proof"
 RULE = ("split/strip: exhaustive strings over {a,_,:} up to length 5 x 6 delimiters + random unicode; groupers: seeded call "
         "sequences per mode (missing tags / delimiters / table rows / file names, integer tags); counters: exhaustive small "
@@ -592,6 +594,8 @@ def correspondence(ctx):
                 ctx.disagree("profile_counter", c, mo, io)
             elif not vlib.is_err(mo) and mo["lines"]:
                 ctx.mark_nontrivial(["profile_counter", c])
+        # --- 5c. growth: file labels, grouped TPM values, tables of several BAM files
+        GR.correspondence(ctx, tmp)
     finally:
         shutil.rmtree(tmp, ignore_errors=True)
     # --- 6. counters under several hash seeds
@@ -926,6 +930,8 @@ def oracle(ctx, disagreements, broken):
                         if len(ctx.failures) < 30:
                             ctx.fail("hashseed_dependent_output", {"what": "counter_seeds", "case": c, "hashseeds": [first[0], hs]},
                                      "dumped tables differ between PYTHONHASHSEED=%s and %s" % (first[0], hs))
+        # 3b. growth: labels -> groups, grouped TPM values, per-chromosome tables
+        n += GR.oracle(ctx, disagreements, tmp)
         # 4. the real pipeline
         n += oracle_pipeline(ctx, broken)
     finally:
@@ -1137,6 +1143,11 @@ def check_pipeline_run(cfg):
                     _, th, _ = P.read_table(tpath)
                     if th is not None and th[1:] != groups:
                         res.append(("tpm_header_mislabelled", "%s: grouped TPM columns %s, count columns %s" % (level, th[1:], groups)))
+                    if th is not None:
+                        crows, _, _ = P.read_table(mpath)
+                        trows, _, _ = P.read_table(tpath)
+                        for kind, det in GR.check_tpm_tables(crows, trows, len(groups)):
+                            res.append((kind, "%s: %s" % (level, det)))
                 if "NA" not in groups and ungroupable:
                     res.append(("ungroupable_not_NA", "%s: %d reads without a group but no NA column" % (level, len(ungroupable))))
                 # partition against the ungrouped table
@@ -1307,6 +1318,8 @@ def replay(ctx, failure):
     inp = failure["input"]
     kind = failure["kind"]
     what = inp.get("what")
+    if what in ("labels_cmd", "labels_yaml", "grouped_tpm", "split_table"):
+        return GR.replay(ctx, failure)
     if what == "grouper":
         tmp = tempfile.mkdtemp(prefix="isoverif_c09r_")
         try:
